@@ -177,7 +177,7 @@ func ruleC06Coerce(c *ctx.Ctx, r *core.Reporter) {
 				if t := templateOfCall(c, ce); t != nil {
 					co = tailCoercion(t.Tokens)
 				}
-			} else if id, ok := rs.Results[0].(*ast.Ident); ok && id.Name == "value" {
+			} else if id, ok := rs.Results[0].(*ast.Ident); ok && id.Name == firstParamName(fd) {
 				passThrough = true
 			}
 		}
@@ -1049,4 +1049,12 @@ func switchArmsByDiscriminant(fn *ctx.JSNode, name string) map[string]*ctx.JSNod
 		return nil
 	}
 	return switchArms(sw)
+}
+
+// firstParamName returns the name of the first parameter of fd ("" if none).
+func firstParamName(fd *ast.FuncDecl) string {
+	if fd == nil || len(fd.Type.Params.List) == 0 || len(fd.Type.Params.List[0].Names) == 0 {
+		return ""
+	}
+	return fd.Type.Params.List[0].Names[0].Name
 }
